@@ -36,8 +36,8 @@ fn gen_final(ctx: &mut Ctx, method: &str) -> RespPlan {
             3 => (ClSpec::Num(0), None),
             _ => (ClSpec::Absent, None),
         };
-        let location = if (300..400).contains(&status) && status != 304 && ctx.chance(3, 4) { Some(ctx.pick(&["/next", "http://b.test/x", "../y?z=1", "https://a.test/s"]).to_string()) } else { None };
-        let spec = RespSpec { status, http11, cl, te, conn: if ctx.chance(1, 4) { vec!["close"] } else { vec![] }, generic_fields: ctx.range(0, 2), location, close_len: ctx.range(0, 40) };
+        let location = if (300..400).contains(&status) && status != 304 && ctx.chance(3, 4) { vec![ctx.pick(&["/next", "http://b.test/x", "../y?z=1", "https://a.test/s"]).to_string()] } else { vec![] };
+        let spec = RespSpec { status, http11, cl, te, conn: if ctx.chance(1, 4) { vec!["close"] } else { vec![] }, generic_fields: ctx.range(0, 2), location, location_raw: vec![], close_len: ctx.range(0, 40) };
         let p = build_resp(ctx, method, &spec);
         if !matches!(p.truth, RF::DontCare | RF::Error) {
             return p;
